@@ -56,7 +56,7 @@ CHECKS = {
         text='staging_rows_aligned / sort_rows_aligned / ids_sorted / pinds_points_to_host / already_sorted_noop / argsort_is_perm hold for every flag set, slab count, slab content and id order '
              'on a Lean model whose sort block permutes exactly the arrays listed in tables regenerated from the source on every run; returned_cols_permuted (decide over those tables) fails when a '
              'returned array lacks its X = X[sortind] statement. The model is tied to /repo by running it and the real constructor/staging on exhaustive small id arrangements plus seeded random '
-             'file sets (1-4 slabs, chunking, all flags, MT naming, secondary/lightcone, 1-D deviates), compared exactly; an oracle decoding every attribute of every row back to its halo id decides violations.',
+             'file sets (1-4 slabs, chunking, all flags, MT naming, secondary/lightcone, 1-D deviates), compared exactly; an oracle decoding every attribute of every row back to its halo id decides violations. Extended: the per-slab fill loop is modelled as coded (preallocated arrays, slice writes at a ticker) with fill_is_concat(_cols); the field-to-array source expressions are regenerated from the source and proved single and as documented (returned_cols_single_source, part_cols_single_source, sources_as_documented, eval_rowwise); stable-argsort statements for duplicate ids (argsort_stable, pinds_first_occurrence).',
         note='Trusted: Lean kernel (+propext, Classical.choice, Quot.sound); harness/stagegen.py encodings and the documented field-to-array mapping; the ast translator; h5py/asdf; numpy argsort/searchsorted/fancy indexing modelled by specification; duplicate-free ids only.',
         design='§7 C12'),
     'C04': dict(
@@ -93,7 +93,7 @@ CHECKS = {
         technique='Lean 4 proofs (case analysis over the 8 enable patterns x chain position with linear arithmetic over Q; filter/partition induction for the catalogue; ring identities for the light-cone displacement) + differential run of the compiled model driver against the real gen_gal_cat / gen_cent / gen_sats on synthetic tables + independent Python oracle',
         text='marker_eq_cumsum, threshold_rule (+_slices, _catalogue), at_most_one, nested_in_ic (+_scale), later_tracer_irrelevant (+_catalogue), disabled_tracer_captures_nothing, inherits_host (+_catalogue), rsd_only_los_box / _lightcone, rsd_off_identity, '
              'order_and_ncent hold for all tables, tracer subsets, widths, randoms and RSD settings on a statement-level exact-rational model of the marker chain, fill pass, wrap and assembly. Tied to /repo each run by ~600 (quick) cases over all 7 tracer subsets x RSD modes x ranks x '
-             '{saturated-exact, generic} parameter sets, with randoms at 0, 1, on and beside markers and rows on the wrap edges; integers exact, floats exact on dyadic inputs and otherwise within 1e-12; an independent Python restatement of the rule decides violations. Detects the repaired r = 0 defect on 5f669f3.',
+             '{saturated-exact, generic} parameter sets, with randoms at 0, 1, on and beside markers and rows on the wrap edges; integers exact, floats exact on dyadic inputs and otherwise within 1e-12; an independent Python restatement of the rule decides violations. Detects the repaired r = 0 defect on 5f669f3. Extended: catalogue-level theorems through genGalCat (later_tracer_irrelevant_genGalCat incl. the conformity switch, nested_in_ic_catalogue, and a witness that nesting does not extend to satellites through conformity); the NFW satellite branch (nfw_inherits_host, nfw_rsd: the repaired wrap lands in [-L/2, L/2) for all inputs, nfw_order_and_ncent; the selection rule does not apply there — Poisson counts from numba RNG); and a translator: the width expressions, marker structure and keep[i] chain of gen_cent/gen_sats are re-extracted by symbolic execution over ast into Generated/HodWidths.lean and decided against a specification table (widths_match_spec, markers_match_spec, chain_matches_model), so a dropped ic or a wrong conformity alpha breaks a proof deterministically; if the extractor cannot interpret a refactored source it drops its obligations for that run instead of raising the alarm.',
         note='Occupation widths (erfc/log10/pow) and 1/sqrt are inputs computed with the package own functions; generic rows within 1e-13 of a marker are undecided (fastmath); thread structure is C10. The half-open box range needs -L/2 <= z < L/2 and |v_z/velz2kms| <= L (or |z| <= L/2 and strict <), shown sharp by an example.',
         design='§7 C09'),
     'C10': dict(
@@ -142,7 +142,7 @@ CHECKS = {
         technique='Lean 4 proofs (two-pointer loop invariant, Hermitian re-indexing, conjugation-symmetric sum re-indexing, fiberwise thread sums, decide +kernel Legendre table) over an executable contribution-list model of bin_kmu / bin_kppi / P_n; differential correspondence with the compiled kernels (plain, NUMBA_BOUNDSCHECK=1 sub-process, py_func) and calc_pk_from_deltak; independent full-mesh fftfreq brute-force oracle',
         text='fold_is_fftfreq, hermitian_reindex, lead_is_least, kmu/kppi_search_inbounds, thread_independent, kmu_counts_exact / kppi_counts_exact (counts[b][m] = number of modes of the FULL n^3 fftfreq mesh classified to the bin, every n >= 1 odd or even, every edge list), kmu_means / kppi_means / kmu_pole_means '
              '(reported power, k_avg and (2l+1)-weighted poles are means over exactly those modes for conjugation-symmetric meshes), monopole_is_mu_average, legendre_table, Pn_zero/two/four. Tied to /repo on every run on all n <= 12 (24 thorough) x float32/float64 x 10 k-edge families '
-             '(below/at/above Nyquist and the diagonal, log, ties on attained |k|^2) x mu / pi / pole / thread variants: counts exactly, means within stated bounds; a brute-force oracle over the full mesh decides violations; every case first runs in a bounds-checked sub-process. Detects the four repaired defects on 5f669f3. The source-level premise of the schedule theorems — every store inside a numba.prange loop of the anchored kernels goes to memory owned by the executing iteration/thread — is re-extracted from /repo with ast on every run (harness/extract/prange.py -> Generated/PrangeC08.lean) and decided by prange_writes_private, so an edit that makes two iterations write the same cell breaks a proof deterministically instead of waiting for a lost update to show up.',
+             '(below/at/above Nyquist and the diagonal, log, ties on attained |k|^2) x mu / pi / pole / thread variants: counts exactly, means within stated bounds; a brute-force oracle over the full mesh decides violations; every case first runs in a bounds-checked sub-process. Detects the four repaired defects on 5f669f3. The source-level premise of the schedule theorems — every store inside a numba.prange loop of the anchored kernels goes to memory owned by the executing iteration/thread — is re-extracted from /repo with ast on every run (harness/extract/prange.py -> Generated/PrangeC08.lean) and decided by prange_writes_private, so an edit that makes two iterations write the same cell breaks a proof deterministically instead of waiting for a lost update to show up. Extended: the pole theorem is unconditional for every even order the code supports (Pn_even_orders, kmu_pole_means_supported, Pn_rejects_above_ten; odd orders as mu x polynomial in PnMu_all_orders), configuration-space mode fourier=False (shape_irrelevant, kmu_means_config_space), get_k_mu_edges modelled (get_k_mu_edges_wellformed, calc_power_binnings_inbounds: calc_power own binnings satisfy the preconditions of the in-bounds theorem), and the sibling loops with the old fold are observed (sibling_fold_differs_only_odd_middle).',
         note='Trusted: Lean kernel, harness and oracle, numba bounds checking; float rounding of mu^2 and edge squares and fastmath summation order (stated tolerances, tie nudging counted in the evidence); odd multipoles not modelled; prange as an arbitrary row-to-thread assignment.',
         design='§7 C08'),
     'C13': dict(
